@@ -131,12 +131,31 @@ class LastValidClient(paths.Client):
         self.lv = fn.params[2]['did']
         self.s2key = '%s#%d' % (fn.params[1]['name'], fn.params[1]['did'])
         self.writes = []
+        # locals that may hold the caller's lastValid.first (initialised / assigned from an expression mentioning it): writing
+        # through them writes the caller's storage
+        self.aliases = set()
+        for n in fn.walk():
+            rhs = []
+            if n['k'] == 'DeclStmt':
+                rhs = [(d['did'], d['init']) for d in n.get('decls', []) if d.get('init') and (d.get('ty') or '').rstrip().endswith('*')]
+            elif n['k'] == 'BinaryOperator' and n.get('op') == '=':
+                t = fn.strip(n['ch'][0])
+                if t is not None and t['k'] == 'DeclRefExpr' and t.get('dk') != 'Parm' and (t.get('ty') or '').rstrip().endswith('*'):
+                    rhs = [(t.get('did'), n['ch'][1])]
+            for did, r in rhs:
+                for x in fn.walk(r):
+                    if x['k'] == 'MemberExpr' and x.get('name') == 'first' and x['ch']:
+                        b = fn.strip(x['ch'][0])
+                        if b is not None and b['k'] == 'DeclRefExpr' and b.get('did') == self.lv:
+                            self.aliases.add(did)
 
     def init(self, fn):
         return (False, False, frozenset(), None, None)
 
     def _is_lv_member(self, fn, n, which):
         n = fn.strip(n['id']) if n else None
+        if which == 'first' and n is not None and n['k'] == 'DeclRefExpr' and n.get('did') in self.aliases:
+            return True
         if n is None or n['k'] != 'MemberExpr' or n.get('name') != which:
             return False
         b = fn.strip(n['ch'][0]) if n['ch'] else None
